@@ -83,12 +83,15 @@ func (s LocalStore) StoreChunk(chunk *Chunk) error {
 	if err != nil {
 		return err
 	}
+	verifPartialWrite("local.store.write", tmp, b)
 	if _, err = tmp.Write(b); err != nil {
 		tmp.Close()
 		os.Remove(tmp.Name()) // clean up
 		return err
 	}
+	verifYield("local.store.afterWrite")
 	tmp.Close() // Windows can't rename open files, close explicitly
+	verifYield("local.store.beforeRename")
 	return os.Rename(tmp.Name(), p)
 }
 
